@@ -19,6 +19,68 @@ func stateString(u *Url) string {
 	return s
 }
 
+// sameBacking: two string slices share their backing array (compared at the last element of the
+// full capacity, which every slice of one array has in common).
+func sameBackingStrings(a, b []string) bool {
+	if cap(a) == 0 || cap(b) == 0 {
+		return false
+	}
+	return &a[:cap(a)][cap(a)-1] == &b[:cap(b)][cap(b)-1]
+}
+
+func sameBackingPairs(a, b []*NameValuePair) bool {
+	if cap(a) == 0 || cap(b) == 0 {
+		return false
+	}
+	return &a[:cap(a)][cap(a)-1] == &b[:cap(b)][cap(b)-1]
+}
+
+// verifCheckDisjoint: structural independence of two URL values: no mutable object (string cells,
+// path and its segment array, parameter list, its array and its pairs, the validation-error list) is
+// reachable from both, and each parameter list writes through to its own URL. This covers every
+// future operation sequence, not only the explored ones. (The parser value is shared by design: it is
+// immutable, which is C14's subject.)
+func verifCheckDisjoint(a, b *Url, what string) {
+	if a == b {
+		vnd.Fail(what + ": the same URL value")
+	}
+	if (a.host != nil && a.host == b.host) || (a.port != nil && a.port == b.port) ||
+		(a.query != nil && a.query == b.query) || (a.fragment != nil && a.fragment == b.fragment) {
+		vnd.Fail(what + ": a component string cell is shared")
+	}
+	if a.path != nil && a.path == b.path {
+		vnd.Fail(what + ": the path object is shared")
+	}
+	if a.path != nil && b.path != nil && sameBackingStrings(a.path.p, b.path.p) {
+		vnd.Fail(what + ": the path segment array is shared")
+	}
+	if a.searchParams != nil && a.searchParams == b.searchParams {
+		vnd.Fail(what + ": the search-parameter object is shared")
+	}
+	if a.searchParams != nil && a.searchParams.url != a {
+		vnd.Fail(what + ": a parameter list writes through to another URL")
+	}
+	if b.searchParams != nil && b.searchParams.url != b {
+		vnd.Fail(what + ": a parameter list writes through to another URL")
+	}
+	if a.searchParams != nil && b.searchParams != nil {
+		if sameBackingPairs(a.searchParams.params, b.searchParams.params) {
+			vnd.Fail(what + ": the parameter array is shared")
+		}
+		for _, x := range a.searchParams.params {
+			for _, y := range b.searchParams.params {
+				if x != nil && x == y {
+					vnd.Fail(what + ": a name/value pair object is shared")
+				}
+			}
+		}
+	}
+	if cap(a.validationErrors) > 0 && cap(b.validationErrors) > 0 &&
+		&a.validationErrors[:cap(a.validationErrors)][cap(a.validationErrors)-1] == &b.validationErrors[:cap(b.validationErrors)][cap(b.validationErrors)-1] {
+		vnd.Fail(what + ": the validation-error list is shared")
+	}
+}
+
 func verifCheckUnchanged(u *Url, before string, what string) {
 	if stateString(u) != before {
 		vnd.Fail(what)
@@ -95,6 +157,7 @@ func VerifC13BaseUnchanged() {
 		return
 	}
 	vnd.Cover("resolved", true)
+	verifCheckDisjoint(b, r, "base and result of a resolution")
 	arg := vnd.Str(vnd.Len(vnd.Param("C13.KArg", 0, 1)))
 	for i := 0; i < 2; i++ {
 		op := vnd.Pick(nAliasOps)
@@ -108,6 +171,7 @@ func VerifC13BaseUnchanged() {
 			verifCheckUnchanged(r, rs, "an operation on the base changed an earlier result")
 		}
 	}
+	verifCheckDisjoint(b, r, "base and result after operations")
 }
 
 // VerifC13ResolveLeavesBase: the resolution itself (any reference shape with a window of arbitrary
@@ -132,8 +196,10 @@ func VerifC13ResolveLeavesBase() {
 	r, rerr := b.Parse(ref)
 	verifCheckUnchanged(b, before, "resolving a reference changed the base")
 	if rerr == nil {
+		verifCheckDisjoint(b, r, "base and result of a resolution")
 		// reading the result (incl. its lazily created search parameters) does not touch the base either
 		_ = stateString(r)
+		verifCheckDisjoint(b, r, "base and result of a resolution (after reading both)")
 		verifCheckUnchanged(b, before, "reading the result of a resolution changed the base")
 	}
 }
@@ -160,6 +226,7 @@ func VerifC13Clone() {
 		vnd.Fail("the clone differs from the original")
 	}
 	verifCheckUnchanged(u, us, "Clone changed the original")
+	verifCheckDisjoint(u, c, "original and clone")
 	// an independent copy made the long way: it must behave like the clone
 	ind, ierr := Parse(start)
 	if ierr != nil {
@@ -183,6 +250,7 @@ func VerifC13Clone() {
 			verifCheckUnchanged(c, s, "an operation on the original changed the clone")
 		}
 	}
+	verifCheckDisjoint(u, c, "original and clone after operations")
 }
 
 func init() {
